@@ -21,6 +21,11 @@ def programs(ctx):
             if "Hash" in td.derived:
                 td.derived = [t for t in td.derived if t != "Hash"] + ["Hash"]      # Hash comes last: it lands in the sibling
         out.append(F.build_prog("p_%04d" % i, td, want=("Hash",)))
+    plain = {a: () for a in R.OPS}
+    td = F.TypeDef(False, [F.Variant("X", "tuple", [F.Field(None, "u8", plain) for _ in range(12)])], ["Hash"])
+    out.append(F.build_prog("p_wide_tuple", td, want=("Hash",)))
+    td = F.TypeDef(True, [F.Variant("A", "unit", []), F.Variant("B", "named", [F.Field("abcdefghijklmnop"[k], "u8", plain) for k in range(13)])], ["Hash", "PartialEq"])
+    out.append(F.build_prog("p_wide_variant", td, want=("Hash",)))
     return out
 
 
